@@ -148,7 +148,24 @@ func isParamNamed(name string) func(ssa.Value) bool {
 // isBytesEq: c compares two byte slices for equality: bytes.Equal(a, b), or
 // bytes.Compare(a, b) whose result is tested against 0.
 func isBytesEq(c ssa.CallInstruction) bool {
-	return extCalleeIs(c, "bytes", "", "Equal") || extCalleeIs(c, "bytes", "", "Compare")
+	if extCalleeIs(c, "bytes", "", "Equal") || extCalleeIs(c, "bytes", "", "Compare") {
+		return true
+	}
+	// a repository helper that is nothing but bytes.Equal of its two parameters
+	g := c.Common().StaticCallee()
+	if g == nil || len(g.Blocks) != 1 || len(g.Params) != 2 || c.Common().IsInvoke() {
+		return false
+	}
+	ret, ok := g.Blocks[0].Instrs[len(g.Blocks[0].Instrs)-1].(*ssa.Return)
+	if !ok || len(ret.Results) != 1 {
+		return false
+	}
+	eq, ok := ret.Results[0].(*ssa.Call)
+	if !ok || !extCalleeIs(eq, "bytes", "", "Equal") {
+		return false
+	}
+	a, b := stripCT(eq.Call.Args[0]), stripCT(eq.Call.Args[1])
+	return a == ssa.Value(g.Params[0]) && b == ssa.Value(g.Params[1]) || a == ssa.Value(g.Params[1]) && b == ssa.Value(g.Params[0])
 }
 
 // truthAt: the byte-slice equality expressed by call c (see isBytesEq; or any
